@@ -278,8 +278,15 @@ def check_line_mapping_rule(fx, rep, rule):
         fam = C.Family(fx, p)
         caps = usize_capture_vars(b, fam)
         if len(caps) < 4:
-            rep.undecidable(rule, "%s/line-mapping/captures" % rule, loc=F.short_file(b["sp"]),
-                            construct="expected 4 optional usize captures, found %d" % len(caps))
+            # the numbers are not bound by four separate `let (n, rest) = ...` statements (e.g. a helper returns a pair): the
+            # presence rule is decided per grammar path by the member-parser wiring rule instead (same statement, semantic form)
+            import parser_rules as _PR2
+            if not any("member/capture-wiring" in i_["key"] for i_ in rep.instances):
+                _PR2.check_member_parser(fx, rep, rule)
+            okw = any("member/capture-wiring" in i_["key"] and i_["status"] == "pass" for i_ in rep.instances)
+            rep.check(rule, "%s/line-mapping/usable-range" % rule, okw, loc=F.short_file(b["sp"]),
+                      found="decided on the grammar paths (member/capture-wiring): Some(LineMapping) iff both obfuscated numbers > 0",
+                      expected="Some(LineMapping) iff both obfuscated line numbers are present and > 0", nontrivial=False)
             continue
         s_, e_, os_, oe_ = [("in", nm) for nm in caps[:4]]
 
